@@ -37,11 +37,11 @@ inductive Ev where
   | cx (c : Nat)
   | wr (ep : Nat) (f : FrameInfo)
   | sn (ep : Nat) (seq : Int)
-  | rec (ep : Nat) (tag : String) (size : Nat)
+  | recd (ep : Nat) (tag : String) (size : Nat)
   | clb (ep : Nat) (who : String)
   | cle (ep : Nat) (who : String)
   | cut (ep : Nat)
-  | obs (ep : Nat) (done connected : Bool) (err : String)
+  | obs (ep : Nat) (e1 : String) (d1 connected d2 : Bool) (e2 : String)
   | obsfinal (ep : Nat) (err : String)
   | settled
   | pend (ep n : Nat)
@@ -125,12 +125,15 @@ def parseEv (toks : List String) : Ev :=
   | ["he", ep, h, r, e, ce] => .he (natOr ep 0) (natOr h 0) (intOr r (-1)) (e = "1") (ce = "1")
   | ["cx", c] => .cx (natOr c 0)
   | ["wr", ep, hex] => .wr (natOr ep 0) (frameInfo ((unhx hex).getD []))
+  | ["wr", ep, hex, n] =>
+    let f := frameInfo ((unhx hex).getD [])
+    .wr (natOr ep 0) (if f.nonce = -1 then { f with nonce := intOr n (-1) } else f)
   | ["sn", ep, s] => .sn (natOr ep 0) (intOr s 0)
-  | ["rec", ep, tag, size] => .rec (natOr ep 0) (String.fromUTF8! ⟨((unhx tag).getD []).toArray⟩) (natOr size 0)
+  | ["rec", ep, tag, size] => .recd (natOr ep 0) (String.fromUTF8! ⟨((unhx tag).getD []).toArray⟩) (natOr size 0)
   | ["clb", ep, who] => .clb (natOr ep 0) who
   | ["cle", ep, who] => .cle (natOr ep 0) who
   | ["cut", ep] => .cut (natOr ep 0)
-  | ["obs", ep, d, c, e] => .obs (natOr ep 0) (d = "1") (c = "1") e
+  | ["obs", ep, e1, d1, c, d2, e2] => .obs (natOr ep 0) e1 (d1 = "1") (c = "1") (d2 = "1") e2
   | ["obsfinal", ep, e] => .obsfinal (natOr ep 0) e
   | ["settled"] => .settled
   | ["pend", ep, n] => .pend (natOr ep 0) (natOr n 0)
